@@ -23,7 +23,7 @@ TECHNIQUE = "Coq: template frame + escape round trip + code-span rule; container
 
 LINES = ["code line", "  indented two", "\tTab", "", "*not em* _nor_", "&amp; &lt; <b>&#35;", "\\* \\` \\\\", "[a](b) ![c](d)", "# not heading", "- not list",
          "> not quote", "1. not list", "    four", "``", "~~", "`` ` ``", "<!-- c -->", "***", "---", "===", "| a | b |", "$x$", "end\\", "trailing  ",
-         "é 😀  x", "<script>alert(1)</script>", "[^1]: note", "*[A]: b", ": def", "\x0bvt\x0c", "x\x85y z"]
+         "é 😀  x", "<script>alert(1)</script>", "  ", "      ", "   ", "[^1]: note", "*[A]: b", ": def", "\x0bvt\x0c", "x\x85y z"]
 
 
 def gen_body(r, fence_char, fence_len, allow_blank=True):
@@ -110,8 +110,13 @@ def check_fenced(m, r, fails):
         fails.append({"input": doc, "kind": "exception", "got": "%s: %s" % (type(e).__name__, e)})
         return
     if len(codes) != 1 or codes[0].get("raw") != expected:
-        fails.append({"input": doc, "container": container, "kind": "fenced-code-not-verbatim", "expected": expected,
-                      "got": [c.get("raw") for c in codes]})
+        f = {"input": doc, "container": container, "kind": "fenced-code-not-verbatim", "expected": expected, "got": [c.get("raw") for c in codes]}
+        if len(codes) == 1 and container in ("bullet", "ordered", "list-in-quote", "quote-in-list"):
+            # mechanism of the known finding: the only differences are lines of white space that came back empty
+            e, g = expected.split("\n"), (codes[0].get("raw") or "").split("\n")
+            if len(e) == len(g) and e != g and all(a == b or (a.strip(" ") == "" and b == "") for a, b in zip(e, g)):
+                f["class"] = "whitespace-only-line-in-item-code"
+        fails.append(f)
         return
     mm = re.findall(r"<pre><code[^>]*>(.*?)</code></pre>", out, re.S)
     if len(mm) != 1 or htmlmod.unescape(mm[0]) != expected:
@@ -189,7 +194,11 @@ def check_span(m, r, fails):
         fails.append({"input": doc, "kind": "exception", "got": "%s: %s" % (type(e).__name__, e)})
         return
     if len(spans) != 1 or spans[0]["raw"] != expected:
-        fails.append({"input": doc, "kind": "codespan-not-verbatim", "expected": expected, "got": [s["raw"] for s in spans]})
+        f = {"input": doc, "kind": "codespan-not-verbatim", "expected": expected, "got": [s["raw"] for s in spans]}
+        if "[t " in pre and pre[:1] in "*_" and any(ch in inner for ch in "[]") and any(ch in inner for ch in "*_"):
+            # mechanism of the known finding: bracket + delimiter inside the span, link text inside emphasis
+            f["class"] = "bracket-and-delimiter-in-codespan-in-link-in-emphasis"
+        fails.append(f)
         return
     mm = re.findall(r"<code>(.*?)</code>", out, re.S)
     if len(mm) != 1 or htmlmod.unescape(mm[0]) != expected:
@@ -239,19 +248,31 @@ def oracle(ctx, extra):
         else:
             check_span(m, r, fails)
         n += 1
-        if len(fails) >= 5:
+        if len([f for f in fails if not f.get("class")]) >= 5:
             break
-    return {"evaluations": n, "distinct_nontrivial": n, "failures": fails,
-            "rule": "50% fenced blocks: fence char ` or ~, length 3/4/6, info strings, bodies of 0-5 lines drawn from 31 hostile lines "
-                    "(markdown-looking text, entities, backslashes, tabs, blank lines, shorter / other-character / suffixed / 4-space-"
+    known = [f for f in fails if f.get("class")]
+    fails = [f for f in fails if not f.get("class")] + known[:3]
+    return {"evaluations": n, "distinct_nontrivial": n, "failures": fails, "known_finding_instances": len(known),
+            "rule": "50% fenced blocks: fence char ` or ~, length 3/4/6, info strings, bodies of 0-5 lines drawn from 34 hostile lines "
+                    "(markdown-looking text, entities, backslashes, tabs, blank lines, lines of 2 / 3 / 6 spaces, shorter / other-character / suffixed / 4-space-"
                     "indented fence runs) in 6 containers (top level with 0-3 spaces of fence indentation, quote, bullet item, ordered "
                     "item, quote in list, list in quote); 25% indented code (top, quote, list item after a paragraph); 25% code spans (bodies with emphasis delimiters, brackets and plugin markers; inside plain text, emphasis and strong nested in each other, link text, headings, items, quotes) "
                     "(content with spaces, newlines, backticks, markup, entities); token raw and unescaped HTML compared with the body",
             "samples": [json.dumps(wrap(["```", "a", "```"], "quote-in-list"))]}
 
 
+def classify(f, known):
+    for k in known:
+        if k["id"] == f.get("class"):
+            return k["id"]
+    return None
+
+
 def check_known(ctx, k):
-    codes = find_code(ctx.mistune.create_markdown(renderer=None)(k["input"]))
+    toks = ctx.mistune.create_markdown(renderer=None)(k["input"])
+    if isinstance(k["wrong"], list):
+        return [s["raw"] for s in _spans(toks)] == k["wrong"]
+    codes = find_code(toks)
     return len(codes) == 1 and codes[0].get("raw") == k["wrong"]
 
 
